@@ -159,7 +159,7 @@ fn fmt_snapshot(out: &mut String, f: &Framework<Vec<Machine>, ScriptRng, VInstan
     let _ = writeln!(out, "o GS {}", sig);
 }
 
-fn panic_class(p: &Box<dyn std::any::Any + Send>) -> &'static str {
+fn panic_class(p: &Box<dyn std::any::Any + Send>) -> String {
     let msg = if let Some(s) = p.downcast_ref::<&str>() {
         s.to_string()
     } else if let Some(s) = p.downcast_ref::<String>() {
@@ -167,12 +167,17 @@ fn panic_class(p: &Box<dyn std::any::Any + Send>) -> &'static str {
     } else {
         String::new()
     };
+    let site = crate::util::take_panic_site();
     if msg.contains("overflow when adding durations") {
-        "dur"
+        "dur".to_string()
     } else if msg.contains("index out of bounds") {
-        "oob"
+        "oob".to_string()
+    } else if site.starts_with("ext:") {
+        // a panic inside a dependency (the rand_distr samplers): the model's oracle has no
+        // value for that draw, so the driver ends the comparison before this call
+        site
     } else {
-        "other"
+        format!("other {}", site)
     }
 }
 
